@@ -456,7 +456,8 @@ def run(chk, repo):
         and any(isinstance(s, ast.While) for s in tr[0].body)
     if ok:
         wl = [s for s in tr[0].body if isinstance(s, ast.While)][0]
-        ok = [unparse(s) for s in wl.body] == ["el = w.readframes(1)", "if not el:\n    break", "yield el"]
+        ok = [unparse(s) for s in wl.body] == ["el = w.readframes(1)", "if not el:\n    break", "yield el"] \
+            and isinstance(wl.test, ast.Constant) and bool(wl.test.value) is True and not wl.orelse
     elif len(tr) == 1 and tr[0].finalbody and [unparse(s) for s in tr[0].finalbody] == [
             "%s.close()" % (unparse(alias[0].targets[0]) if alias else "w")] and len(tr[0].body) == 1 \
             and isinstance(tr[0].body[0], ast.For):
@@ -467,6 +468,21 @@ def run(chk, repo):
             and [unparse(s) for s in fl_.body] == ["yield %s" % unparse(fl_.target)]
     chk.decide(ok, "C18.decode", WW("WavStream.block_reader"), "read one frame at a time until empty; close() in finally",
                why="the file must be closed once the stream is exhausted (or abandoned), and frames read in order", node=br)
+    wd = [unparse(d) for d in ws.args.defaults]
+    chk.decide(wd == ["False"], "C18.decode", WW("WavStream.__init__"), "keep defaults to %s" % wd,
+               why="by default samples are normalised to [-1, 1); keep=True hands out the raw integers", node=ws)
+    from ..dtable import Facts, walk as _dwalk
+    for cfn, cname in ((cs, "struct"), (ca, "array")):
+        try:
+            for given in (False, True):
+                w_ = _dwalk(docstring_free(cfn.body), Facts(none=[] if given else ["size"], kinds={"size": {"int"}} if given else {}),
+                            "chunks.%s" % cname, strict=False)
+                ss = [x for x in w_.texts() if x.startswith("size = ")]
+                chk.decide(ss == ([] if given else ["size = chunks.size"]), "C18.%s" % cname, WI("chunks[%s]" % cname),
+                           "size %s -> %s" % ("given" if given else "None", "; ".join(ss) or "kept"),
+                           why="the chunk size defaults to chunks.size and is kept when given", node=cfn)
+        except AnalysisError as ex:
+            chk.defer(str(ex))
     chk.rule("C18.close", "every read of frames (any use of .readframes) sits inside a try whose finally closes the wave file")
     nrf = 0
     for n in ast.walk(ws):
